@@ -184,6 +184,7 @@ func runC14(c *Ctx) {
 
 	// ---------- R1 (a): rule cache ----------
 	nCache := 0
+	cOwner, cField, cMus := ruleCacheField(c.P)
 	for _, fn := range fns {
 		var sites []ssa.Instruction
 		var kinds []string
@@ -191,14 +192,14 @@ func runC14(c *Ctx) {
 			switch x := in.(type) {
 			case *ssa.MapUpdate:
 				if ld, ok := x.Map.(*ssa.UnOp); ok {
-					if n, f, ok := fieldOf(ld.X); ok && f == "cache" && namedIs(n, "filterlist", "RuleStorage") {
+					if n, f, ok := fieldOf(ld.X); ok && f == cField && namedIs(n, "filterlist", cOwner) {
 						sites = append(sites, in)
 						kinds = append(kinds, "write")
 					}
 				}
 			case *ssa.Lookup:
 				if ld, ok := x.X.(*ssa.UnOp); ok {
-					if n, f, ok := fieldOf(ld.X); ok && f == "cache" && namedIs(n, "filterlist", "RuleStorage") {
+					if n, f, ok := fieldOf(ld.X); ok && f == cField && namedIs(n, "filterlist", cOwner) {
 						sites = append(sites, in)
 						kinds = append(kinds, "read")
 					}
@@ -219,7 +220,12 @@ func runC14(c *Ctx) {
 			} else {
 				l = heldAt(fn, fc.locks, at, "Lock", "RLock")
 			}
-			okMu := l != nil && muName(l.mu) == "cacheMu"
+			okMu := false
+			for _, m := range cMus {
+				if l != nil && muName(l.mu) == m {
+					okMu = true
+				}
+			}
 			why := "the rule cache map is " + map[string]string{"write": "written without the exclusive lock", "read": "read without the lock"}[kinds[i]] + ": concurrent queries race on the map (concurrent map read and map write is a fatal error in Go)"
 			if l != nil && !okMu {
 				why = "the access is protected by a different mutex (" + muName(l.mu) + ") than the cache's"
